@@ -175,6 +175,11 @@ def plan(tier, seed):
         add('core', 'core', [1, 2, 3], ALL_FLAGSETS, 3, 3)
         add('core-b4', 'core', [4], CORE_FLAGSETS, 3, 2)
         add('core-b5', 'core', [5], ['DE', 'E'], 2, 2, residue=(seed % 8, 8))
+    # the bytes copies of the bracket / POSIX tables: full menu, one and two tokens
+    for sh in range(8):
+        chunks.append(('bytes', 'full', 2, ('DE', 'E'), 1, 2, sh, 8, None, '?*+@!'))
+    layers.append({'layer': 'bytes', 'menu': 'full', 'budgets': [1, 2], 'flagsets': ['DE', 'E'], 'nesting': 1, 'max_alts': 2,
+                   'exhaustive': True, 'residue': None})
     chunks.append(('selftest',))
     return {
         'chunks': chunks,
@@ -210,7 +215,8 @@ def run_chunk(chunk):
     core, full = menus()
     lv = core if menu == 'core' else full
     k = 0
-    for seq in pat.gen(budget, lv, ext=True, depth=depth, max_alts=max_alts, kinds=kinds):
+    gens = [pat.gen(b, lv, ext=True, depth=depth, max_alts=max_alts, kinds=kinds) for b in ((1, 2) if name == 'bytes' else (budget,))]
+    for seq in (x for g in gens for x in g):
         k += 1
         if k % ns != sh:
             continue
@@ -221,7 +227,7 @@ def run_chunk(chunk):
         for fs in flagsets:
             if 'E' not in fs and grouped and budget > 3:
                 continue
-            check_instance(seq, fs, res)
+            check_instance(seq, fs, res, is_bytes=(name == 'bytes'))
         if k % 997 == 0:
             res.samples.append({'pattern': text, 'flagsets': list(flagsets)[:3]})
     impl.clear()
